@@ -186,6 +186,17 @@ const BIG_SIZES: &[usize] = &[300 << 10, 1100 << 10, 2200 << 10, 4500 << 10, 9 <
 fn gen_big(rng: &mut Rng, idx: u64, thorough: bool) -> (String, Vec<u8>) {
     use crate::gram::{AInst, AOp, K};
     let mut insts = vec![AInst::named("MemoryModel", None, None, vec![AOp::w(K::AddressingModel, 0), AOp::w(K::MemoryModel, 1)])];
+    if idx % 6 == 4 {
+        // very long runs of one tiny instruction (valid or not): depth of recursion, per-instruction costs
+        let n = *rng.pick(&[30_000usize, 100_000, 400_000, 1_000_000]);
+        let word = *rng.pick(&[0x0001_ffffu32, 0x0001_0000, 0x0001_1388, 0x0002_0013, 0x0000_0000, 0x0001_00fd]);
+        let mut w = crate::gram::header(0x0001_0600, 0, 10);
+        if rng.chance(1, 2) {
+            w.extend([(3 << 16) | 14, 0, 1]);
+        }
+        w.extend(std::iter::repeat(word).take(n));
+        return (format!("run of {} x word {:#010x}", n, word), words_to_bytes(&w));
+    }
     let huge = idx % 6 == 5;
     if huge {
         // few very long strings: the file size is what matters
@@ -253,7 +264,7 @@ pub fn run(cfg: &Cfg, rep: &mut Report) {
         return;
     }
     let directed = crate::mon::c04::directed_inputs();
-    let n = cfg.n(800, 40_000);
+    let n = cfg.n(1200, 40_000);
     let n_valgrind = cfg.n(40, 1_200);
     let have_valgrind = Command::new("valgrind").arg("--version").output().map(|o| o.status.success()).unwrap_or(false);
     if !have_valgrind {
